@@ -177,9 +177,22 @@ fn raise(class: &str, pname: &str, w: &Wire) -> Result<(String, Variant), String
         (Wire::Str(b), Some(VariantType::BinaryString)) => Variant::BinaryString(b.clone().into()),
         (Wire::Str(b), Some(VariantType::ContentId)) => Variant::ContentId(utf8(b.clone())?.into()),
         (Wire::Str(b), Some(VariantType::Content)) => Variant::Content(Content::from_uri(utf8(b.clone())?)),
-        (Wire::Str(b), Some(VariantType::Tags)) => Variant::Tags(Tags::decode(b).map_err(|e| format!("tags: {e}"))?),
-        (Wire::Str(b), Some(VariantType::Attributes)) => Variant::Attributes(Attributes::from_reader(&b[..]).map_err(|e| format!("attributes: {e}"))?),
-        (Wire::Str(b), Some(VariantType::MaterialColors)) => Variant::MaterialColors(MaterialColors::decode(b).map_err(|e| format!("materialcolors: {e}"))?),
+        // blobs: opaque at this level; one that its own codec rejects stays a byte string
+        // Tags: the NUL-separated pieces, empty ones kept (Tags::decode drops them: recorded finding of C17, not a matter of the file format)
+        (Wire::Str(b), Some(VariantType::Tags)) => match String::from_utf8(b.clone()) {
+            Ok(st) => {
+                let mut t = Tags::new();
+                if !st.is_empty() {
+                    for piece in st.split('\0') {
+                        t.push(piece);
+                    }
+                }
+                Variant::Tags(t)
+            }
+            Err(_) => Variant::BinaryString(b.clone().into()),
+        },
+        (Wire::Str(b), Some(VariantType::Attributes)) => Attributes::from_reader(&b[..]).map(Variant::Attributes).unwrap_or_else(|_| Variant::BinaryString(b.clone().into())),
+        (Wire::Str(b), Some(VariantType::MaterialColors)) => MaterialColors::decode(b).map(Variant::MaterialColors).unwrap_or_else(|_| Variant::BinaryString(b.clone().into())),
         (Wire::Str(b), _) => Variant::BinaryString(b.clone().into()),
         (Wire::V(Variant::Int32(x)), Some(VariantType::Int64)) => Variant::Int64(*x as i64),
         (Wire::V(Variant::Float32(x)), Some(VariantType::Float64)) => Variant::Float64(*x as f64),
@@ -312,6 +325,8 @@ fn doc_key(key: &str, text: &str) -> String {
         "doc-uniqueid-layout".into()
     } else if key.contains("sharedstring") || text.contains("SStr ") {
         "doc-sharedstring-index-endianness".into()
+    } else if key.contains("content") || text.contains("Content ") {
+        "doc-content-layout".into()
     } else {
         format!("doc-{key}")
     }
@@ -327,6 +342,9 @@ fn judge_c03(id: &str, lines: &[String], model: &[String], out: &mut Vec<String>
     };
     if let Some(m) = model.iter().find(|l| l.starts_with("MODELFAIL")) {
         out.push(format!("{id} C03 modelfail {m}"));
+        return;
+    }
+    if model.iter().any(|l| l == "nofiles") {
         return;
     }
     let (decs, clauses) = parse_decs(model);
@@ -351,8 +369,14 @@ fn judge_c03(id: &str, lines: &[String], model: &[String], out: &mut Vec<String>
                     am_clean = fs.is_empty();
                     for x in fs {
                         am_ids.insert(finding_id(&x.text));
-                        if seen.insert(x.key.clone()) {
-                            out.push(format!("{id} C03 {} comp={comp} {}", x.key, cut(&x.text)));
+                        // which canonical name the database files a serialized name under is C01's business, not the file format's
+                        if x.key == "canonical-name-changes" {
+                            continue;
+                        }
+                        // docs/binary.md has no section for type id 0x21 (SecurityCapabilities): the column is an unknown type to the document
+                        let key = if x.key.contains("securitycapabilities") { "doc-type-0x21-undocumented".to_string() } else { x.key.clone() };
+                        if seen.insert(key.clone()) {
+                            out.push(format!("{id} C03 {key} comp={comp} {}", cut(&x.text)));
                         }
                     }
                 }
@@ -411,12 +435,52 @@ fn real_dom_lines(bytes: &[u8]) -> Result<Vec<String>, String> {
     }
 }
 
+fn split_nodes(lines: &[String]) -> Vec<(String, BTreeMap<String, String>)> {
+    let mut out: Vec<(String, BTreeMap<String, String>)> = Vec::new();
+    for l in lines {
+        if l.starts_with("node ") {
+            // drop the property count: it is implied by the property lines
+            let head = l.rsplitn(2, ' ').nth(1).unwrap_or(l).to_string();
+            out.push((head, BTreeMap::new()));
+        } else if let Some(rest) = l.strip_prefix("prop ") {
+            let (k, v) = rest.split_once(' ').unwrap_or((rest, ""));
+            if let Some(n) = out.last_mut() {
+                n.1.insert(k.to_string(), v.to_string());
+            }
+        }
+    }
+    out
+}
+
+fn pname(h: &str) -> String {
+    unhex(h).ok().and_then(|b| String::from_utf8(b).ok()).unwrap_or_else(|| h.to_string())
+}
+
+/// first difference between the DOM the document describes and the DOM the reader returned
 fn first_diff(exp: &[String], got: &[String]) -> Option<String> {
-    for k in 0..exp.len().max(got.len()) {
-        let a = exp.get(k).map(|s| s.as_str()).unwrap_or("<nothing>");
-        let b = got.get(k).map(|s| s.as_str()).unwrap_or("<nothing>");
-        if a != b {
-            return Some(format!("line {k}: the document describes `{}`, the reader returned `{}`", cut(a), cut(b)));
+    let (e, g) = (split_nodes(exp), split_nodes(got));
+    for k in 0..e.len().max(g.len()) {
+        match (e.get(k), g.get(k)) {
+            (Some(a), Some(b)) => {
+                if a.0 != b.0 {
+                    return Some(format!("instance {}: the document describes `{}`, the reader returned `{}`", k + 1, cut(&a.0), cut(&b.0)));
+                }
+                for (p, v) in &a.1 {
+                    match b.1.get(p) {
+                        None => return Some(format!("instance {} ({}): property {} = `{}` is missing from what the reader returned", k + 1, a.0, pname(p), cut(v))),
+                        Some(w) if w != v => return Some(format!("instance {} property {}: the document describes `{}`, the reader returned `{}`", k + 1, pname(p), cut(v), cut(w))),
+                        _ => {}
+                    }
+                }
+                for (p, w) in &b.1 {
+                    if !a.1.contains_key(p) {
+                        return Some(format!("instance {} ({}): the reader returned a property {} = `{}` the file does not describe", k + 1, a.0, pname(p), cut(w)));
+                    }
+                }
+            }
+            (Some(a), None) => return Some(format!("instance {} `{}` is missing from what the reader returned", k + 1, cut(&a.0))),
+            (None, Some(b)) => return Some(format!("the reader returned an extra instance {} `{}`", k + 1, cut(&b.0))),
+            (None, None) => {}
         }
     }
     None
@@ -472,6 +536,13 @@ fn judge_c04(id: &str, lines: &[String], model: &[String], out: &mut Vec<String>
     match real_dom_lines(&am) {
         Ok(got) => match first_diff(&exp, &got) {
             None => base_ok = true,
+            Some(d) if tags.iter().any(|t| t == "chunk-order") && (d.contains("describes `Ref ") || d.contains("describes `Content 2")) => {
+                out.push(format!("{id} C04 ref-to-later-inst variant=spec-framing tags={tagstr} {d}"))
+            }
+            Some(d) if std::env::var("BINSPEC_DEBUG").is_ok() => {
+                eprintln!("== {id} expected\n{}\n== {id} reader\n{}", exp.join("\n"), got.join("\n"));
+                out.push(format!("{id} C04 {primary} variant=spec-framing tags={tagstr} {d}"))
+            }
             Some(d) => out.push(format!("{id} C04 {primary} variant=spec-framing tags={tagstr} {d}")),
         },
         Err(e) => out.push(format!("{id} C04 {primary} variant=spec-framing tags={tagstr} the reader fails on a conformant file: {}", cut(&e))),
@@ -480,6 +551,9 @@ fn judge_c04(id: &str, lines: &[String], model: &[String], out: &mut Vec<String>
         *st.entry("c04_files_read_as_described".into()).or_default() += 1;
     }
     // the literal reading's bytes
+    if !base_ok {
+        return;
+    }
     if let Some(h) = get("bytes literal ") {
         if h != "SAME" {
             if let Ok(b) = unhex(&h) {
@@ -497,7 +571,10 @@ fn judge_c04(id: &str, lines: &[String], model: &[String], out: &mut Vec<String>
                     if text.contains(" V 1c ") {
                         out.push(format!("{id} C04 doc-sharedstring-index-endianness variant=literal tags={tagstr} {d}"));
                     }
-                    if !text.contains(" V 1f ") && !text.contains(" V 1c ") {
+                    if text.contains(" V 22 ") {
+                        out.push(format!("{id} C04 doc-content-layout variant=literal tags={tagstr} {d}"));
+                    }
+                    if !text.contains(" V 1f ") && !text.contains(" V 1c ") && !text.contains(" V 22 ") {
                         out.push(format!("{id} C04 doc-literal variant=literal tags={tagstr} {d}"));
                     }
                 }
@@ -505,9 +582,6 @@ fn judge_c04(id: &str, lines: &[String], model: &[String], out: &mut Vec<String>
         }
     }
     // the same chunks through the real compressors
-    if !base_ok {
-        return;
-    }
     if let Some(cl) = get("chunks ") {
         let toks: Vec<&str> = cl.split(' ').collect();
         let n = usize::from_str_radix(toks[0], 16).unwrap_or(0);
@@ -611,7 +685,11 @@ fn gbytes(b: &[u8]) -> String {
 struct CellCtx<'a> {
     referents: &'a [i32],
     nsstr: usize,
-    junk: bool,
+    junk_bits: bool,
+    junk_env: bool,
+    junk_ocf: bool,
+    /// how many Object items this Content column may still get (the reader assigns them in reverse: own feature)
+    objs_left: u32,
     uid_seen: &'a mut HashSet<(u32, u32, i64)>,
 }
 
@@ -634,8 +712,8 @@ fn gen_cell(rng: &mut Rng, ty: u8, cx: &mut CellCtx) -> String {
         0x06 => format!("{} {}", f(rng), gz(val::gen_i32(rng) as i64)),
         0x07 => format!("{} {} {} {}", f(rng), gz(val::gen_i32(rng) as i64), f(rng), gz(val::gen_i32(rng) as i64)),
         0x08 => (0..6).map(|_| f(rng)).collect::<Vec<_>>().join(" "),
-        0x09 => format!("{:x}", rng.below(64) + if cx.junk { 64 * rng.below(4) } else { 0 }),
-        0x0a => format!("{:x}", rng.below(8) + if cx.junk { 8 * rng.below(32) } else { 0 }),
+        0x09 => format!("{:x}", rng.below(64) + if cx.junk_bits { 64 * rng.range(1, 3) } else { 0 }),
+        0x0a => format!("{:x}", rng.below(8) + if cx.junk_bits { 8 * rng.range(1, 31) } else { 0 }),
         0x0b => format!("{:x}", *rng.pick(&val::brick_numbers())),
         0x0c | 0x0e => (0..3).map(|_| f(rng)).collect::<Vec<_>>().join(" "),
         0x0d => (0..2).map(|_| f(rng)).collect::<Vec<_>>().join(" "),
@@ -673,7 +751,7 @@ fn gen_cell(rng: &mut Rng, ty: u8, cx: &mut CellCtx) -> String {
                     s.push_str(&f(rng));
                 }
                 s.push(' ');
-                s.push_str(&if cx.junk { f(rng) } else { "0".to_string() });
+                s.push_str(&if cx.junk_env { f(rng) } else { "0".to_string() });
             }
             s
         }
@@ -691,7 +769,7 @@ fn gen_cell(rng: &mut Rng, ty: u8, cx: &mut CellCtx) -> String {
         0x1c => format!("{:x}", rng.below(cx.nsstr.max(1) as u64)),
         0x1e => {
             let present = rng.chance(60);
-            let c = if present || cx.junk {
+            let c = if present || cx.junk_ocf {
                 gen_cf_tokens(rng)
             } else {
                 // doc: "the valueless OptionalCoordinateFrame is written as the identity CFrame"
@@ -717,14 +795,17 @@ fn gen_cell(rng: &mut Rng, ty: u8, cx: &mut CellCtx) -> String {
         }
         0x22 => match rng.below(4) {
             0 => "0".to_string(),
-            1 | 2 => format!("1 {}", gbytes(val::gen_utf8(rng).as_bytes())),
-            _ => format!("2 {}", gz(if rng.chance(80) { *rng.pick(cx.referents) } else { -1 } as i64)),
+            3 if cx.objs_left > 0 => {
+                cx.objs_left -= 1;
+                format!("2 {}", gz(if rng.chance(80) { *rng.pick(cx.referents) } else { -1 } as i64))
+            }
+            _ => format!("1 {}", gbytes(val::gen_utf8(rng).as_bytes())),
         },
         _ => unreachable!(),
     }
 }
 
-const FEATURES: [&str; 20] = [
+const FEATURES: [&str; 27] = [
     "baseline",
     "all-types",
     "known-props",
@@ -735,17 +816,40 @@ const FEATURES: [&str; 20] = [
     "sparse-class-ids",
     "prnt-order",
     "chunk-order",
+    "prnt-before-inst",
     "widen-i32-i64",
     "widen-f32-f64",
     "prop-ends-after-name",
     "unknown-type-id",
     "lz4-literal-blocks",
-    "junk-bits",
+    "faces-axes-meaningless-bits",
+    "colorsequence-envelope",
+    "ocf-valueless-cframe",
     "rotation-written-in-full",
     "content-external-refs",
     "no-name-property",
+    "color3uint8-unknown-property",
+    "bytecode-type",
+    "content-object-order",
+    "combo",
     "combo",
 ];
+
+/// a valid attribute blob (rbx_types writer; attribute blobs are opaque at this level, C14 owns them)
+fn gen_attr_blob(rng: &mut Rng) -> Vec<u8> {
+    let mut a = Attributes::new();
+    for _ in 0..rng.below(3) {
+        let v = match rng.below(3) {
+            0 => Variant::Bool(rng.chance(50)),
+            1 => Variant::Float64(val::gen_f64(rng)),
+            _ => Variant::BinaryString(val::gen_bytes(rng).into()),
+        };
+        a.insert(val::gen_utf8(rng), v);
+    }
+    let mut out = Vec::new();
+    let _ = a.to_writer(&mut out);
+    out
+}
 
 fn gen_lfile(rng: &mut Rng, primary: &str) -> Vec<String> {
     let combo = primary == "combo";
@@ -771,13 +875,20 @@ fn gen_lfile(rng: &mut Rng, primary: &str) -> Vec<String> {
     let f_trunc = on(rng, "prop-ends-after-name", &mut tags);
     let f_unkty = on(rng, "unknown-type-id", &mut tags);
     let f_lz4 = on(rng, "lz4-literal-blocks", &mut tags);
-    let f_junk = on(rng, "junk-bits", &mut tags);
+    let f_jbits = on(rng, "faces-axes-meaningless-bits", &mut tags);
+    let f_jenv = on(rng, "colorsequence-envelope", &mut tags);
+    let f_jocf = on(rng, "ocf-valueless-cframe", &mut tags);
+    let f_c3u8 = primary == "color3uint8-unknown-property";
+    let f_bytecode = primary == "bytecode-type";
+    let f_objorder = primary == "content-object-order";
+    let f_prnt_first = primary == "prnt-before-inst";
     let f_rotfull = on(rng, "rotation-written-in-full", &mut tags);
     let f_ext = on(rng, "content-external-refs", &mut tags);
     let f_noname = on(rng, "no-name-property", &mut tags);
 
     // ---- shape
     let n = match rng.below(5) {
+        _ if primary == "content-object-order" => rng.range(3, 7),
         0 => 1,
         1..=3 => rng.range(2, 7),
         _ => rng.range(6, 14),
@@ -788,7 +899,9 @@ fn gen_lfile(rng: &mut Rng, primary: &str) -> Vec<String> {
     let mut inst_class: Vec<usize> = Vec::new();
     for i in 0..n {
         let pick_known = f_known || f_wi || f_wf || f_service || rng.chance(35);
-        let (nm, svc, kix) = if f_wi && i == 0 {
+        let (nm, svc, kix) = if f_objorder {
+            ("UnkA".to_string(), false, None)
+        } else if f_wi && i == 0 {
             ("IntValue".to_string(), false, Some(2))
         } else if f_wf && i == 0 {
             ("NumberValue".to_string(), false, Some(3))
@@ -899,7 +1012,9 @@ fn gen_lfile(rng: &mut Rng, primary: &str) -> Vec<String> {
         }
         if kix.is_none() || rng.chance(30) {
             let k = if f_all { DOC_TYPES.len() } else { rng.below(5) as usize };
-            let mut tys: Vec<u8> = DOC_TYPES.to_vec();
+            // Color3uint8 on a property the database does not know and Bytecode have their own features
+            let mut tys: Vec<u8> = DOC_TYPES.iter().copied().filter(|t| *t != 0x1a && *t != 0x1d).collect();
+            let k = k.min(tys.len());
             if !f_all {
                 rng.shuffle(&mut tys);
             }
@@ -907,16 +1022,30 @@ fn gen_lfile(rng: &mut Rng, primary: &str) -> Vec<String> {
                 plan.push((format!("U{t:02x}"), t));
             }
         }
-        if f_junk {
-            for t in [0x09u8, 0x0a, 0x16, 0x1e] {
-                plan.push((format!("J{t:02x}"), t));
-            }
+        if f_jbits {
+            plan.push(("J09".to_string(), 0x09));
+            plan.push(("J0a".to_string(), 0x0a));
+        }
+        if f_jenv {
+            plan.push(("J16".to_string(), 0x16));
+        }
+        if f_jocf {
+            plan.push(("J1e".to_string(), 0x1e));
+        }
+        if f_c3u8 {
+            plan.push(("U1a".to_string(), 0x1a));
+        }
+        if f_bytecode {
+            plan.push(("U1d".to_string(), 0x1d));
         }
         if f_rotfull {
             plan.push(("RotCF".to_string(), 0x10));
         }
         if f_ext {
             plan.push(("ExtContent".to_string(), 0x22));
+        }
+        if f_objorder {
+            plan.push(("Objs".to_string(), 0x22));
         }
         for (pname, ty) in plan {
             if ty == 0x1c && nsstr == 0 {
@@ -925,11 +1054,16 @@ fn gen_lfile(rng: &mut Rng, primary: &str) -> Vec<String> {
             if ty == 0x1c {
                 has_sstr_col = true;
             }
-            let mut cx = CellCtx { referents: &referents, nsstr, junk: f_junk, uid_seen: &mut uid_seen };
+            let mut cx = CellCtx { referents: &referents, nsstr, junk_bits: f_jbits && pname.starts_with('J'), junk_env: f_jenv, junk_ocf: f_jocf, objs_left: if pname == "Objs" { 1000 } else { 1 }, uid_seen: &mut uid_seen };
             let mut cells: Vec<String> = Vec::new();
             for m in &members {
                 if pname == "Name" {
                     cells.push(gbytes(format!("n{m}").as_bytes()));
+                } else if pname == "Objs" {
+                    // every item an Object, distinct referents: the assignment order is visible
+                    cells.push(format!("2 {}", gz(referents[(*m + 1) % n] as i64)));
+                } else if pname == "AttributesSerialize" {
+                    cells.push(gbytes(&gen_attr_blob(rng)));
                 } else {
                     cells.push(gen_cell(rng, ty, &mut cx));
                 }
@@ -1051,7 +1185,8 @@ fn gen_lfile(rng: &mut Rng, primary: &str) -> Vec<String> {
     let mut keys: Vec<String> = Vec::new();
     if f_order {
         // a random order that keeps every INST before the PROPs of its class (and END last)
-        let mut pending: Vec<String> = vec!["M".into(), "S".into(), "R".into()];
+        let mut pending: Vec<String> = vec!["M".into()];
+        keys.push("S".into());
         for k in 0..ncls {
             pending.push(format!("I{k:x}"));
         }
@@ -1070,6 +1205,9 @@ fn gen_lfile(rng: &mut Rng, primary: &str) -> Vec<String> {
                     inst_done.contains(&pos)
                 })
                 .collect();
+            if inst_done.len() == ncls && !keys.contains(&"R".to_string()) && !pending.contains(&"R".to_string()) {
+                pending.push("R".into());
+            }
             let total = pending.len() + ready.len();
             let j = rng.below(total as u64) as usize;
             if j < pending.len() {
@@ -1097,6 +1235,11 @@ fn gen_lfile(rng: &mut Rng, primary: &str) -> Vec<String> {
         for k in 0..nunk {
             keys.push(format!("U{k:x}"));
         }
+    }
+    if f_prnt_first {
+        // the hierarchy before the INST chunks it talks about
+        keys.retain(|k| k != "R");
+        keys.insert(rng.below(2) as usize, "R".into());
     }
     out.push(format!("ch order {}", keys.join(" ")));
     let comp: String = (0..keys.len() + 1).map(|_| if f_lz4 && rng.chance(60) { '1' } else { '0' }).collect();
@@ -1187,6 +1330,10 @@ pub fn cli(args: &[String]) -> bool {
                                     Enc::Bytes(b) => {
                                         o.push(format!("enc {cn} OK {:x}", b.len()));
                                         *st.entry(format!("c03_encoded_{cn}")).or_default() += 1;
+                                        if b.len() > 300_000 {
+                                            *st.entry("c03_files_skipped_over_300kB".into()).or_default() += 1;
+                                            continue;
+                                        }
                                         h.push(format!("file {cn} {}", hex(&b)));
                                         match deframe_doc(&b) {
                                             None => writeln!(orc, "{id} C03 unframeable comp={cn} the written file cannot be split into chunks by the document's framing").unwrap(),
@@ -1228,6 +1375,15 @@ pub fn cli(args: &[String]) -> bool {
                 j.insert(k, serde_json::json!(v));
             }
             std::fs::write(&args[5], serde_json::to_string_pretty(&serde_json::Value::Object(j)).unwrap()).expect("stats");
+            true
+        }
+        "binspec-real" => {
+            // debugging aid: decode the hex file given as argument with the real reader and print the observation
+            let h = std::fs::read_to_string(&args[2]).expect("read");
+            match real_dom_lines(&unhex(h.trim()).expect("hex")) {
+                Ok(l) => println!("{}", l.join("\n")),
+                Err(e) => println!("ERR {e}"),
+            }
             true
         }
         "binspec-judge" => {
